@@ -12,6 +12,8 @@ from spacepackets.cfdp.tlv import (
     map_enum_status_code_to_action_status_code,
 )
 
+from harness import core
+
 ID = "C08"
 _T = "spacepackets.cfdp.tlv.defs:"
 _M = "SP.Model.Tlv."
@@ -74,10 +76,7 @@ NEW_OP = {2: 1020, 5: 1014, 6: 1010}
 
 # ------------------------------------------------------------------ adapter
 def _enum(cls, v):
-    try:
-        return cls(v)
-    except ValueError:
-        return v
+    return core.enum_or_int(cls, v)
 
 
 def _rb(f):
